@@ -113,7 +113,17 @@ pub fn gen_rules_world(seed: u64) -> SupplyTrace {
             }
         };
         if prev_products.is_some() {
-            match r.below(8) {
+            match r.below(9) {
+                8 if !mats.is_empty() => {
+                    // the artifact arrives with a digest under ANOTHER algorithm only (the producer recorded
+                    // sha256, the consumer sha512): nothing says it is the same file
+                    let k = mats.keys().nth(r.idx(mats.len())).unwrap().clone();
+                    if let Some(d) = mats.get_mut(&k) {
+                        d.clear();
+                        d.insert("sha512".into(), gen::sha512_hex(k.as_bytes()));
+                    }
+                    labels.push("A-ALG-DISJOINT".to_string());
+                }
                 0 if !mats.is_empty() => {
                     let k = mats.keys().nth(r.idx(mats.len())).unwrap().clone();
                     mats.insert(k, gen::digest_of(900 + ctr, false));
@@ -259,6 +269,31 @@ pub fn gen_rules_world(seed: u64) -> SupplyTrace {
         }
         labels.push("NON-NORMAL-PATHS".to_string());
     }
+    // a directed near miss of a source prefix: the material lies in a SIBLING directory whose name begins
+    // with the prefix ("src2/lib.c" for IN src), and the producing step has a product at the remainder
+    // ("2/lib.c") with the same digest; the MATCH must leave it alone, the DISALLOW behind it must fire
+    if n >= 2 && r.chance(1, 12) {
+        let i = 1 + r.idx(n - 1);
+        let p = *r.pick(PREFIXES);
+        let tail = *r.pick(&["2", "-old", "_", ".bak", "x"]);
+        let base = *r.pick(&["lib.c", "a", "foo"]);
+        let (src_key, twin) = (format!("{p}{tail}/{base}"), format!("{tail}/{base}"));
+        ctr += 1;
+        let d = gen::digest_of(6000 + ctr, false);
+        if let Body::Link(l) = &mut files[i - 1].body {
+            l.products.insert(twin.clone(), d.clone());
+            l.products.insert(format!("{}/{}", tail.trim_start_matches('/'), base), d.clone());
+        }
+        if let Body::Link(l) = &mut files[i].body {
+            l.materials.insert(src_key.clone(), d);
+        }
+        steps[i].exp_mat = vec![
+            vec!["MATCH".into(), "*".into(), "IN".into(), p.to_string(), "WITH".into(), "PRODUCTS".into(), "FROM".into(), names[i - 1].clone()],
+            vec!["DISALLOW".into(), src_key],
+            vec!["ALLOW".into(), "*".into()],
+        ];
+        labels.push("PREFIX-TWIN".to_string());
+    }
     let now = gen::NOW_DEFAULT;
     let root = LevelSpec {
         layout: LayoutSpec { expires: refmodel::render_rfc3339(now + 86_400, None, ""), readme: String::new(), key_table: (1..=n).collect(), steps, inspect: vec![] },
@@ -310,7 +345,7 @@ pub fn gen_rules_world(seed: u64) -> SupplyTrace {
         });
         labels.push("INSPECTION".into());
     }
-    SupplyTrace { keys, root, caller: vec![(0, 0)], clock: vec![(now, 0)], hash_seeds: vec![r.next()], arrivals: vec![r.next()], file_faults: vec![], labels, work_files, caller_json_alias: vec![], step_name: None, rel_link_dir: false, read_faults: None, fixed_mtime: false, link_dir_style: 0, work_links: vec![], tz: None, same_thread: gen::same_thread_block(seed), via_symlink: None, mem_sigdup: vec![], in_place: false, read_eio: None, alt_dir_on_odd_reps: false }
+    SupplyTrace { keys, root, caller: vec![(0, 0)], clock: vec![(now, 0)], hash_seeds: vec![r.next()], arrivals: vec![r.next()], file_faults: vec![], labels, work_files, caller_json_alias: vec![], step_name: None, rel_link_dir: false, read_faults: None, fixed_mtime: false, link_dir_style: 0, work_links: vec![], tz: None, same_thread: gen::same_thread_block(seed), via_symlink: None, mem_sigdup: vec![], in_place: false, read_eio: None, alt_dir_on_odd_reps: false, concurrent: 0 }
 }
 
 pub fn run_c03(_tier: Tier, seed: u64, index: u64, scratch: &Scratch, rec: &mut RunRecord) {
